@@ -97,12 +97,45 @@ def r1(ck, rule="C02-R1"):
     ck.require(not back, rule, "no further level after success", "an Applied path continues with the next level via %s" % back, am.where())
 
 
+MATCHES = "libpatch::patch::try_apply_hunk::matches"
+
+
+def scan_sites(ck, tah):
+    """Where try_apply_hunk looks for another position: a loop over candidates that calls matches(), or the same thing spelled
+    `candidates.find(|&c| matches(needle, haystack, c))` (first hit wins, None when exhausted - exactly the loop with `break`)."""
+    prog = ck.prog
+    out = []
+    for bb, t, c in calls_named(tah, MATCHES):
+        if cfg.innermost_loop_of(tah, bb):
+            out.append({"kind": "loop", "bb": bb, "term": t})
+    for bb, t in tah.calls():
+        if tah.blocks[bb]["cleanup"] or not (callee_of(t).get("path") or "").endswith("Iterator::find") or len(t["args"]) != 2:
+            continue
+        ce = df.operand_expr(tah, t["args"][1])
+        cl = prog.fns.get(ce[1]) if isinstance(ce, tuple) and ce and ce[0] == "closure" else None
+        if cl is None:
+            continue
+        ms = [(b2, t2) for b2, t2, c2 in calls_named(cl, MATCHES)]
+        if ms:
+            out.append({"kind": "find", "bb": bb, "term": t, "closure": cl, "caps": ce[2], "mcalls": ms})
+    return out
+
+
+def captured(e, caps):
+    """An expression of a closure body in terms of its creator: field k of the environment parameter is the k-th captured value."""
+    if not isinstance(e, tuple) or not e:
+        return e
+    if e[0] == "field" and isinstance(e[2], int) and isinstance(e[1], tuple) and e[1][:2] == ("param", 1) and e[2] < len(caps):
+        return caps[e[2]]
+    return tuple(captured(x, caps) if isinstance(x, tuple) and x and isinstance(x[0], str) else
+                 (tuple(captured(y, caps) for y in x) if isinstance(x, tuple) else x) for x in e)
+
+
 def r2(ck, rule="C02-R2"):
     tah = ck.anchor("libpatch::patch::try_apply_hunk")
     if tah is None:
         return
-    mcalls = [(bb, t) for bb, t, c in calls_named(tah, "libpatch::patch::try_apply_hunk::matches")]
-    scans = [(bb, t) for bb, t in mcalls if cfg.innermost_loop_of(tah, bb)]
+    scans = [(sc["bb"], sc["term"]) for sc in scan_sites(ck, tah)]
     ck.floor(rule, "position scans in try_apply_hunk", len(scans), 1)
 
     def position_param_ok(a):
@@ -140,9 +173,9 @@ def r2(ck, rule="C02-R2"):
                 ok = True
         ck.require(ok, rule, "the scan is only entered for Middle hunks",
                    "the position scan is not dominated by position() == Middle: a start/end anchored hunk could be applied elsewhere", tah.where(t))
-        # not reachable in rollback mode: apply_mode is a path constant, prune every Normal edge
-        normal_edges = {sw["edges"]["Normal"] for sw in sws if "Normal" in sw["edges"]}
-        r = cfg.reachable(tah, 0, disabled=normal_edges)
+        # not reachable in rollback mode: apply_mode is a path constant (also when the test goes through a flag computed from it)
+        from .. import pathconst
+        r = pathconst.reach_under(tah, lambda e: None, lambda e, adt: "Rollback" if (adt or "").endswith("ApplyMode") else None)
         ck.require(bool(sws) and bb not in r, rule, "the scan is never entered in rollback mode",
                    "the position scan is reachable with apply_mode = Rollback", tah.where(t))
     # the first guess for anchored hunks: Start -> stated line, End -> len - hunk_len, Middle -> stated + last offset
@@ -226,15 +259,20 @@ def r4(ck, rule="C02-R4"):
     mcalls = [(bb, t) for bb, t, c in calls_named(tah, "libpatch::patch::try_apply_hunk::matches")]
     probes = [(bb, t) for bb, t in mcalls if not cfg.innermost_loop_of(tah, bb)]
     loops = [il for il in pt.iterator_loops(tah) if any(bb in il["body"] for bb, t in mcalls)]
-    if not ck.require(len(probes) == 1 and len(loops) == 1, rule, "one direct probe and one scan loop in try_apply_hunk",
-                      "%d direct matches() probes, %d loops that call matches()" % (len(probes), len(loops)), tah.where()):
+    finds = [sc for sc in scan_sites(ck, tah) if sc["kind"] == "find"]
+    if not ck.require(len(probes) == 1 and len(loops) + len(finds) == 1, rule, "one direct probe and one scan loop in try_apply_hunk",
+                      "%d direct matches() probes, %d loops that call matches(), %d find() scans" % (len(probes), len(loops), len(finds)), tah.where()):
         return
-    (pbb, probe), il = probes[0], loops[0]
+    pbb, probe = probes[0]
+    needle, hay, T = (df.operand_expr(tah, a) for a in probe["args"])
+    if finds:
+        r4_find_form(ck, rule, tah, finds[0], needle, hay, T, pbb)
+        return
+    il = loops[0]
     scan = [(bb, t) for bb, t in mcalls if bb in il["body"]]
     if not ck.require(len(scan) == 1, rule, "one matches() call in the scan loop", "%d calls" % len(scan), tah.where()):
         return
     sbb, st_ = scan[0]
-    needle, hay, T = (df.operand_expr(tah, a) for a in probe["args"])
     sn, sh, item = (df.operand_expr(tah, a) for a in st_["args"])
     ck.require(sn == needle and sh == hay, rule, "the scan compares the same lines against the same file as the direct probe",
                "scan: matches(%s, %s, _)  probe: matches(%s, %s, _)" % (df.show(sn, 60), df.show(sh, 60), df.show(needle, 60), df.show(hay, 60)), tah.where(st_))
@@ -283,6 +321,50 @@ def r4(ck, rule="C02-R4"):
         full = [dd for dd in df.defs_of(tah).all(it[1]) if dd[0] in ("stmt", "call")]
         if len(full) == 1:
             it = df.rvalue_expr(tah, full[0][3]["rv"]) if full[0][0] == "stmt" else df.call_expr(tah, full[0][2])
+    ctx = r4_sequence(ck, rule, tah, it, needle, hay, T, tah.where(il["next_term"]))
+    if not ctx:
+        return
+    r4_matches_contract(ck, rule, tah, T, needle, ctx)
+
+
+def r4_find_form(ck, rule, tah, sc, needle, hay, T, pbb):
+    """The scan as `candidates.find(|&c| matches(needle, haystack, c))`."""
+    cl, t = sc["closure"], sc["term"]
+    if not ck.require(len(sc["mcalls"]) == 1, rule, "one matches() call in the scan", "%d calls in the find() predicate" % len(sc["mcalls"]), cl.where()):
+        return
+    b2, t2 = sc["mcalls"][0]
+    sn, sh, item = (captured(df.operand_expr(cl, a), sc["caps"]) for a in t2["args"])
+    ck.require(sn == needle and sh == hay, rule, "the scan compares the same lines against the same file as the direct probe",
+               "scan: matches(%s, %s, _)  probe: matches(%s, %s, _)" % (df.show(sn, 60), df.show(sh, 60), df.show(needle, 60), df.show(hay, 60)), cl.where(t2))
+    ck.require(isinstance(item, tuple) and item[:2] == ("param", 2), rule, "each drawn candidate is the position tested",
+               "matches() in the predicate is given %s, not the candidate" % df.show(item, 100), cl.where(t2))
+    # the predicate is the comparison, nothing else: find() then returns the first candidate that matches, None when exhausted
+    ret = df.local_expr(cl, 0)
+    ck.require(df.is_call(ret, "try_apply_hunk::matches") and len(df.defs_of(cl).all(0)) == 1, rule, "the first matching candidate ends the scan",
+               "the find() predicate returns %s, not the result of matches()" % df.show(ret, 100), cl.where())
+    fe = df.call_expr(tah, t)
+    rec_ok = False
+    for bb3, i3, s3 in tah.stmts():
+        if s3["k"] == "assign" and "p" not in s3["lhs"] and tah.names.get(s3["lhs"]["l"]):
+            e3 = df.rvalue_expr(tah, s3["rv"])
+            if isinstance(e3, tuple) and e3[0] == "field" and e3[2] == 0 and isinstance(e3[1], tuple) and e3[1][0] == "downcast" and e3[1][2] == "Some" and \
+                    df.mentions(e3[1][1], lambda x: x == fe):
+                rec_ok = True
+    ck.require(rec_ok, rule, "a hit records the candidate that matched", "the payload of find()'s result is not what becomes the position", tah.where(t))
+    if isinstance(T, tuple) and T[0] == "local":
+        between = cfg.reachable(tah, [pbb]) & {b for b in range(len(tah.blocks)) if sc["bb"] in cfg.reachable(tah, [b])}
+        redefs = [dd for dd in df.defs_of(tah).all(T[1]) if dd[1] in between and dd[1] != pbb]
+        ck.require(not redefs, rule, "the expected line is not changed between the direct probe and the scan",
+                   "the expected line is reassigned between the probe and the scan", tah.where())
+    it = df.operand_expr(tah, t["args"][0])
+    ctx = r4_sequence(ck, rule, tah, it, needle, hay, T, tah.where(t))
+    if not ctx:
+        return
+    r4_matches_contract(ck, rule, tah, T, needle, ctx)
+
+
+def r4_sequence(ck, rule, tah, it, needle, hay, T, where_it):
+    from .. import seqmodel
 
     view = ("param", 1, tah.local_name(1)) if hasattr(tah, "local_name") else None
     sn_ = seqmodel.strip
@@ -338,22 +420,28 @@ def r4(ck, rule="C02-R4"):
                 break
     except seqmodel.Unsupported as ex:
         ck.violate(rule, "scan sequence is a recognised iterator term", "cannot model the candidate sequence (%s): anchor lost, the rule would be vacuous" % ex,
-                   tah.where(il["next_term"]))
-        return
+                   where_it)
+        return False
     if not ck.require({"T"} <= m.used, rule, "the candidate sequence depends on the expected line",
-                      "the iterator term mentions none of expected line / file length / hunk length", tah.where(il["next_term"])):
-        return
+                      "the iterator term mentions none of expected line / file length / hunk length", where_it):
+        return False
     if m.max_const > 2:
         ck.violate(rule, "constants in the candidate sequence are within the model's window", "constant %d exceeds the small-model window" % m.max_const,
-                   tah.where(il["next_term"]))
-        return
+                   where_it)
+        return False
     inst = "candidates cover every admissible position, nearest first, forward before backward"
     if bad:
-        ck.violate(rule, inst, "%s: %s" % bad, tah.where(il["next_term"]))
+        ck.violate(rule, inst, "%s: %s" % bad, where_it)
     else:
         ck.ok(rule, inst, "iterator term %s decided over %d valuations of (expected line, file length, hunk length): every position in "
               "[0, len - hunk_len] other than the expected line occurs, in strictly increasing (distance, backward) order" % (df.show(it, 200), nval),
-              tah.where(il["next_term"]))
+              where_it)
+    return {"INTS": INTS, "SEQS": SEQS, "ENUMS": ENUMS, "envs": envs, "fpath": fpath}
+
+
+def r4_matches_contract(ck, rule, tah, T, needle, ctx):
+    from .. import seqmodel
+    INTS, SEQS, ENUMS, envs, fpath = ctx["INTS"], ctx["SEQS"], ctx["ENUMS"], ctx["envs"], ctx["fpath"]
     # ---- matches(): true only by comparing haystack[at .. at + len(needle)] with needle, false without comparing only when inadmissible ----
     mfn = ck.anchor("libpatch::patch::try_apply_hunk::matches")
     if mfn is not None:
